@@ -132,4 +132,24 @@ def parseSum (render : List (Nat × List Nat)) (other : Nat) : SumAnswer → Sum
       | some r => .avail r.1
       | none => .avail other
 
+/-! ### HTTP statuses (`_download`, phylib/io/datasets.py:53-59)
+
+`r = get(url, stream=stream)`, then `if r.status_code != 200: r.raise_for_status()`, then `return r`.
+"HTTP error" of the statement is a status, not the one number 404: every client (4xx) and server (5xx) error. -/
+
+/-- `requests.Response.raise_for_status` raises `HTTPError` exactly for `400 <= status_code < 600`. -/
+def isHttpError (status : Nat) : Bool := 400 ≤ status && status < 600
+
+/-- `_download` raises: the status is not 200 and `raise_for_status()` raises for it.  (A non-200 status below 400 -
+1xx, 204, 206, a redirect that was not followed - is handed on like a 200 by the code that exists; such answers are
+no "HTTP error" and no "correct / corrupted body" of the statement and are not generated.) -/
+def getRaises (status : Nat) : Bool := status != 200 && isHttpError status
+
+/-- what one GET of the data URL answered with `status` and a body with token `b` is to `download_file` -/
+def dataOfStatus (status b : Nat) : DataResp := if getRaises status then .httpError else .body b
+
+/-- what one GET of `URL + '.md5'` answered with `status` and the text `t` is to `_check_md5_of_url` (the error page
+of an HTTP error is never read: `raise_for_status()` raises inside the `try`) -/
+def sumOfStatus (status : Nat) (t : List Nat) : SumAnswer := if getRaises status then .error else .text t
+
 end PhyVerif.C20
